@@ -109,7 +109,9 @@ func (s *SerialDB) batchTimeoutHandle(ctx context.Context) {
 
 		select {
 		case <-timer.C:
+			verifPoint("timer.beforeFlush:" + s.path)
 			err := s.putBatch()
+			verifPoint("timer.afterFlush:" + s.path)
 			if err != nil {
 				log.Warn("leveldb serial putBatch", "error", err.Error())
 				continue
